@@ -1030,11 +1030,23 @@ def creation_sites(db, body):
     """sites (fn, Site, stmt) where the closure/coroutine `body` is created"""
     out = []
     par = db.fns.get(body.parent)
-    if par is None:
-        return out
-    for site, s in par.aggregates():
-        if s["rv"].get("def") == body.id:
-            out.append((par, site, s))
+    if par is not None:
+        for site, s in par.aggregates():
+            if s["rv"].get("def") == body.id:
+                out.append((par, site, s))
+    if not out and getattr(db, "inline_mode", None):
+        # in a view the creation may have been spliced into another body (or several) than the one the closure was written in
+        idx = getattr(db, "_creation_index", None)
+        if idx is None:
+            idx = {}
+            for f in db.fns.values():
+                if not (f.crate or "").startswith("ractor"):
+                    continue
+                for site, s in f.stmts():
+                    if s["k"] == "assign" and s["rv"]["k"] == "agg" and s["rv"].get("kind") in ("closure", "coroutine", "coroutine_closure"):
+                        idx.setdefault(s["rv"].get("def"), []).append((f, site, s))
+            db._creation_index = idx
+        out = list(idx.get(body.id, []))
     return out
 
 
